@@ -569,6 +569,11 @@ class VarsManager(object):
             same_real(new_name_list)
             if new_name_list:
                 repoint(name_list, new_name_list[0])
+        if new_name_list and new_name_list[0] in name_list:
+            # the first entry of a class is used as its head (the member that
+            # stays in trainable_vars) when the class is merged again
+            name_list.remove(new_name_list[0])
+            name_list.insert(0, new_name_list[0])
         self.same_list.append(name_list)
 
     def get(self, name, val_in_fit=True):
